@@ -51,6 +51,9 @@ func (t *Trace) Class(name string) {
 	t.classes[name]++
 }
 func (t *Trace) NonTrivial()            { t.nontrivial = true }
+
+// Known notes that the run met a violation listed as a known finding and went on.
+func (t *Trace) Known(id string) { t.known = append(t.known, id) }
 func (t *Trace) IsNonTrivial() bool     { return t.nontrivial }
 func (t *Trace) Has(class string) bool  { return t.classes[class] > 0 }
 func (t *Trace) Count(class string) int { return t.classes[class] }
@@ -117,6 +120,12 @@ func (r *Recorder) Record(c any, tr *Trace) {
 	r.st.Evaluations++
 	for k, n := range tr.classes {
 		r.st.Classes[k] += n
+	}
+	if len(tr.known) > 0 {
+		r.st.ExcludedKnown++
+		for _, id := range tr.known {
+			r.st.KnownHits[id]++
+		}
 	}
 	if !tr.nontrivial {
 		return
@@ -342,6 +351,9 @@ func RunFixed[C any](t *testing.T, o Options, cases []C, run func(C, *Trace) *Vi
 		tr := &Trace{}
 		v := Safe(func() *Violation { return run(c, tr) })
 		rec.Record(c, tr)
+		for _, id := range tr.known {
+			fmt.Fprintf(os.Stderr, "VERIF-KNOWN %s (continued)\n", id)
+		}
 		if v == nil {
 			continue
 		}
